@@ -22,7 +22,10 @@ LEVEL_TEXT = ("Lean: for an ARBITRARY assignment sigma of non-zero sizes to the 
               "unit with magnitude a +- (b converted to a's unit) (add_value, sub_value), so their SI value is the sum/difference "
               "exactly when that conversion is sound (si_add); for operands in one unit == and < are == and < of the SI values "
               "(same_unit_order, beq_iff, lt_iff). The conversion step's soundness is C04's (partial). Tied to the code by "
-              "differential execution and an exact SI-value oracle.")
+              "differential execution and an exact SI-value oracle. For operands whose conversion is settled directly (or that share the unprefixed unit) the hypothesis is discharged "
+              "for the model of the real operators, in every state reached by unit operations and size-consistent declarations: "
+              "a+b and a-b have the sum/difference of the SI values (add_direct_exact, sub_direct_exact), == and < decide by SI "
+              "value (eqCore_direct_iff, ltCore_direct_iff).")
 LEVEL_NOTE = ("+ - == < inherit C04's known findings through the implicit conversion of one operand. Exact arithmetic in the model; "
               "float ties are avoided by the oracle (4e-9) as the property allows.")
 TECHNIQUE = "Lean 4 proofs (SI value is a homomorphism for * / **, for every size assignment; additive ops relative to the conversion) + differential correspondence + exact SI-value oracle"
@@ -32,8 +35,10 @@ THEOREMS = [
     "Measured.C06.sub_value", "Measured.C06.si_add", "Measured.C06.same_unit_order",
     "Measured.C06.beq_iff", "Measured.C06.lt_iff",
     "Measured.mulUnit_size", "Measured.divUnit_size", "Measured.powUnit_size",
+    "Measured.C06.add_direct_exact", "Measured.C06.sub_direct_exact",
+    "Measured.eqCore_direct_iff", "Measured.ltCore_direct_iff",
 ]
-LEAN_TARGETS = ["Props.C06", "Obligations.C02"]
+LEAN_TARGETS = ["Props.C06", "Props.C12Direct", "Obligations.C02"]
 QUICK = {"chunks": 4, "ops": 1500}
 THOROUGH = {"chunks": 16, "ops": 9000}
 RTOL = 1e-11
